@@ -4,11 +4,12 @@ It only parses and prints; every answer comes from the definitions in S3V/Model/
 the definitions the theorems in S3V/Props/* are about.
 -/
 import S3V.Driver.Plan
+import S3V.Driver.Sema
 
 namespace S3V.Driver
 
 structure DState where
-  dummy : Unit := ()
+  sema : SemaD := {}
 
 def DState.init : DState := {}
 
@@ -17,6 +18,8 @@ def step (st : DState) (line : String) : DState × String :=
   match toks with
   | ["reset"] => (DState.init, "ok")
   | "plan" :: rest => (st, planStep rest)
+  | "sema" :: _ | "tsem" :: _ | "cci" :: _ | "bsema" :: _ =>
+    let r := semaStep st.sema toks; ({ st with sema := r.1 }, r.2)
   | _ => (st, "bad-op")
 
 partial def loop (h : IO.FS.Stream) (out : IO.FS.Stream) (st : DState) : IO Unit := do
